@@ -211,6 +211,8 @@ class Executor:
     # -- class helpers
     def mro(self, cls):
         out, todo = [], [cls]
+        if cls not in self.classes:
+            return [cls]
         while todo:
             c = todo.pop(0)
             if c in out or c not in self.classes:
@@ -585,11 +587,18 @@ class Executor:
                 return AtProxy(v)
             if attr in ("reshape", "flatten", "astype", "mean", "sum"):
                 return Builtin("arr." + attr + ":" + str(id(v))), v
+            if attr == "size":
+                out = v.shape[0]
+                for x in v.shape[1:]:
+                    out = out * x
+                return out
             raise Unsupported(f"array attribute {attr}")
         if isinstance(v, AtProxy) and attr == "set":
             return ("at.set", v)
         if isinstance(v, dict) and attr in ("keys", "values", "items", "get"):
             return ("dict." + attr, v)
+        if isinstance(v, list) and attr == "append":
+            return ("list.append", v)
         if isinstance(v, Builtin) and v.name == "super":
             raise Unsupported("bare super")
         if isinstance(v, tuple) and len(v) == 2 and isinstance(v[0], Builtin) and v[0].name == "superobj":
@@ -686,6 +695,11 @@ class Executor:
                 return a % b
             self.obligations.append(("modulo divisor is positive", list(pc), zint(b) > 0))
             return zint(a) % zint(b)
+        if isinstance(op, ast.Pow):
+            if concrete(b) and b == 2:
+                return _num(a, a, lambda x, y: x * y)
+            if concrete(a) and concrete(b):
+                return a ** b
         raise Unsupported(f"binary op {type(op).__name__}")
 
     def e_BoolOp(self, e, env, pc):
@@ -822,6 +836,8 @@ class Executor:
             if fv.name == "isinstance":
                 v, c = args
                 names = [x.name[6:] for x in (c if isinstance(c, tuple) else (c,)) if isinstance(x, Builtin)]
+                if isinstance(v, Rec) and any(isinstance(x, ModuleRef) and x.name == "eqx.Module" for x in (c if isinstance(c, tuple) else (c,))):
+                    return [(True, pc)]         # every record models an equinox Module
                 if isinstance(v, Rec):
                     return [(any(n in self.mro(v.cls) for n in names), pc)]
                 for x in (c if isinstance(c, tuple) else (c,)):
@@ -831,6 +847,8 @@ class Executor:
                     if isinstance(x, Builtin) and x.name == "dict" and isinstance(v, dict):
                         return [(True, pc)]
                     if isinstance(x, Builtin) and x.name == "tuple" and isinstance(v, tuple):
+                        return [(True, pc)]
+                    if isinstance(x, Builtin) and x.name == "list" and isinstance(v, list):
                         return [(True, pc)]
                 return [(False, pc)]
             if fv.name in PY_BUILTINS:
@@ -847,6 +865,9 @@ class Executor:
                 return [(list(obj.items()), pc)]
             if tag == "dict.get":
                 return [(obj.get(*args), pc)]
+            if tag == "list.append":
+                obj.append(args[0])
+                return [(None, pc)]
         if isinstance(fv, tuple) and len(fv) == 2 and isinstance(fv[0], Builtin) and fv[0].name.startswith("arr."):
             meth = fv[0].name.split(":")[0][4:]
             return [(ARR_METHODS[meth](self, fv[1], args, kwargs, pc), pc)]
@@ -1072,6 +1093,8 @@ def lib_dynamic_update_slice(ex, args, kwargs, pc):
 
 def lib_cond(ex, args, kwargs, pc):
     pred, f, g, *ops = args
+    if "operand" in kwargs:
+        ops = [kwargs["operand"]]
     t = ex.truth(pred)
     rt = ex.apply(f, ops, {}, pc)
     rf = ex.apply(g, ops, {}, pc)
@@ -1120,6 +1143,8 @@ def perm_axioms(perm, points):
 
 def lib_uniform(ex, args, kwargs, pc):
     key = args[0]
+    if not isinstance(key, Key):
+        raise PyRaise("TypeError", "jax.random.uniform called with something that is not a PRNG key")
     shape = kwargs.get("shape", args[1] if len(args) > 1 else ())
     lo, hi = kwargs.get("minval", 0.0), kwargs.get("maxval", 1.0)
     f = fresh_fun("unif", *([z3.IntSort()] * max(1, len(shape)) + [z3.RealSort()]))
@@ -1226,6 +1251,11 @@ def reshape(ex, a, new, pc):
     # supported: adding / removing unit axes, and (n,) <-> (n, 1, ...) style reshapes
     old_nz = [s for s in a.shape if not (concrete(s) and s == 1)]
     new_nz = [s for s in new if not (concrete(s) and s == 1)]
+    if len(a.shape) == 1 and len(new) == 2 and len(new_nz) == 2:
+        # row-major split of one axis: out[i, j] = a[i * cols + j]
+        rows, cols = new
+        ex.obligations.append(("reshape preserves the number of elements", list(pc), zint(a.shape[0]) == zint(rows) * zint(cols)))
+        return SArr((rows, cols), lambda i, j: a.elem(zint(i) * zint(cols) + zint(j)), a.dtype)
     if len(old_nz) != len(new_nz):
         raise Unsupported(f"general reshape {a.shape} -> {new}")
     for x, y in zip(old_nz, new_nz):
@@ -1240,6 +1270,86 @@ def reshape(ex, a, new, pc):
             src[op] = j[np_]
         return a.elem(*src)
     return SArr(tuple(new), elem, a.dtype)
+
+
+def flatten(ex, a):
+    if len(a.shape) == 1:
+        return a
+    if len(a.shape) == 2:
+        rows, cols = a.shape
+        return SArr((zint(rows) * zint(cols),), lambda k: a.elem(zint(k) / zint(cols), zint(k) % zint(cols)), a.dtype)
+    raise Unsupported("flatten of rank > 2")
+
+
+def lib_vmap(ex, args, kwargs, pc):
+    """vmap of an opaque per-point residual: the result at row i is an uninterpreted function of the row (and of nothing
+    else: loss / network / parameters are fixed during one refinement step)"""
+    f = args[0]
+    res = fresh_fun("residual", z3.IntSort(), z3.RealSort())
+    rank = getattr(ex, "residual_rank", 1)
+
+    def mapped(ex_, a, k, pc_):
+        rows = a[0].shape[0]
+        ex_.residuals = getattr(ex_, "residuals", []) + [(res, a)]
+        if rank == 1:
+            return SArr((rows,), lambda i: res(zint(i)), "real")
+        return SArr((rows, 1), lambda i, c: res(zint(i)), "real")
+    return mapped
+
+
+def lib_argsort(ex, args, kwargs, pc):
+    """assumed contract: a bijection sigma of [0, n) with a[sigma(0)] <= a[sigma(1)] <= ..."""
+    a = args[0]
+    sig = fresh_fun("argsort", z3.IntSort(), z3.IntSort())
+    out = SArr((a.shape[0],), lambda i: sig(zint(i)), "int")
+    ex.sorts = getattr(ex, "sorts", []) + [(sig, a)]
+    return out
+
+
+def lib_top_k(ex, args, kwargs, pc):
+    """assumed contract: indices of the k largest entries, largest first (injective, in range)"""
+    a = args[0]
+    k = kwargs.get("k", args[1] if len(args) > 1 else None)
+    top = fresh_fun("topk", z3.IntSort(), z3.IntSort())
+    ex.topks = getattr(ex, "topks", []) + [(top, a, k)]
+    vals = SArr((k,), lambda i: a.elem(top(zint(i))), "real")
+    return (vals, SArr((k,), lambda i: top(zint(i)), "int"))
+
+
+def lib_unravel_index(ex, args, kwargs, pc):
+    idx, shape = args[0], args[1]
+    if len(shape) != 2:
+        raise Unsupported("unravel_index for rank != 2")
+    cols = shape[1]
+    return (SArr(idx.shape, lambda i: idx.elem(i) / zint(cols), "int"), SArr(idx.shape, lambda i: idx.elem(i) % zint(cols), "int"))
+
+
+def lib_norm(ex, args, kwargs, pc):
+    a = args[0]
+    if len(a.shape) == 2:
+        # norm over the last axis of a (rows, 1) residual: |r|
+        return SArr((a.shape[0],), lambda i: z3.If(zreal(a.elem(i, 0)) >= 0, zreal(a.elem(i, 0)), -zreal(a.elem(i, 0))), "real")
+    raise Unsupported("norm of this shape")
+
+
+def lib_fori_loop(ex, args, kwargs, pc):
+    """invariant rule through a closed form supplied by the contract (keyed by loop ordinal):
+    obligations  closed(lo) == init  and  body(i, closed(i)) == closed(i+1) for lo <= i < hi ; result closed(hi)"""
+    lo, hi, body, init = args
+    ordinal = getattr(ex, "loop_ordinal", 0)
+    ex.loop_ordinal = ordinal + 1
+    closed = ex.loop_contracts[ordinal](lo, hi, init) if ordinal < len(getattr(ex, "loop_contracts", [])) else None
+    if closed is None:
+        raise Unsupported("fori_loop without a loop contract")
+    k = tuple(fresh_int("k") for _ in init.shape)
+    inr = [z3.And(x >= 0, x < zint(n_)) for x, n_ in zip(k, init.shape)]
+    i = fresh_int("it")
+    ex.obligations.append((f"loop{ordinal}: invariant holds initially", list(pc) + inr, zreal(closed(lo).elem(*k)) == zreal(init.elem(*k))))
+    stepped = ex.apply(body, [i, closed(i)], {}, pc)[0][0]
+    ex.obligations.append((f"loop{ordinal}: invariant preserved by the body", list(pc) + inr + [zint(lo) <= i, i < zint(hi)],
+                           zreal(stepped.elem(*k)) == zreal(closed(i + 1).elem(*k))))
+    res = closed(hi)
+    return SArr(init.shape, lambda *j: ite(zint(hi) > zint(lo), res.elem(*j), init.elem(*j)), init.dtype)
 
 
 def lib_zeros(ex, args, kwargs, pc):
@@ -1346,6 +1456,13 @@ LIB = {
     "jnp.all": lib_all,
     "jnp.array": lib_array,
     "jnp.asarray": lib_array,
+    "vmap": lib_vmap,
+    "jax.vmap": lib_vmap,
+    "jnp.argsort": lib_argsort,
+    "jax.lax.top_k": lib_top_k,
+    "jnp.unravel_index": lib_unravel_index,
+    "jnp.linalg.norm": lib_norm,
+    "jax.lax.fori_loop": lib_fori_loop,
     "jax.tree_util.tree_map": lib_tree_map,
     "jax.tree_util.tree_structure": lib_tree_structure,
     "jax.tree_util.tree_transpose": lib_tree_transpose,
@@ -1355,7 +1472,7 @@ LIB = {
 ARR_METHODS = {
     "reshape": lib_reshape_method,
     "astype": lambda ex, a, args, kwargs, pc: a,
-    "flatten": lambda ex, a, args, kwargs, pc: a if len(a.shape) == 1 else (_ for _ in ()).throw(Unsupported("flatten")),
+    "flatten": lambda ex, a, args, kwargs, pc: flatten(ex, a),
 }
 
 
